@@ -841,7 +841,9 @@ pub fn gen_text_style(rng: &mut Rng, font: FontD, text: String) -> TextD {
         align: rng.below(3) as u8,
         lh: match rng.below(6) {
             0 => LhD::Pixels(*rng.pick(&[0, 1, 7, 40])),
-            1 => LhD::Percent(*rng.pick(&[0, 50, 250])),
+            // any percentage up to 1000 half of the time: the absolute height is a quotient, and
+            // an inexact division shows only for particular products (seeded `C15-12`)
+            1 => LhD::Percent(if rng.chance(1, 2) { *rng.pick(&[0, 50, 250]) } else { rng.u32r(0, 1000) }),
             2 => LhD::Pixels(rng.u32r(0, 30)),
             _ => LhD::Percent(100),
         },
